@@ -137,6 +137,27 @@ pub struct C15SessionConsumedByFinish;
 /// ```
 pub struct C15SessionParamsSwitchesPrivate;
 
+/// C15-L3, alternative form of the witness above for a tree in which the switches are no longer two boolean fields (for
+/// example one private enum): the field names then do not exist at all for an outside user (E0609).  `rules/witness.py`
+/// accepts a witness when it or one of its `__alt` forms fails to compile as stated.
+/// ```compile_fail,E0609
+/// use nomt::SessionParams;
+/// fn no_guard() -> SessionParams {
+///     let mut p = SessionParams::default();
+///     p.take_global_guard = false;
+///     p
+/// }
+/// ```
+/// ```compile_fail,E0609
+/// use nomt::SessionParams;
+/// fn no_delta() -> SessionParams {
+///     let mut p = SessionParams::default();
+///     p.record_rollback_delta = false;
+///     p
+/// }
+/// ```
+pub struct C15SessionParamsSwitchesPrivate__alt1;
+
 /// C15: sessions can be shared between reader threads (compiling witness).
 /// ```
 /// use nomt::{Session, hasher::Blake3Hasher};
